@@ -79,6 +79,7 @@ func write3MF(wg *sync.WaitGroup, path string) (chan<- []*sdf.Triangle3, error) 
 
 	wg.Add(1)
 	go func() {
+		simYield("render.write3MF.start", 0)
 		defer wg.Done()
 		defer f.Close()
 		// read triangles from the channel and add them to the model
